@@ -467,8 +467,13 @@ def run(ctx):
                 "preamble": b"", "epilogue": b"", "pad": b""}
         body, spans = MC.encode(form)
         exp = MC.expected(form)
-        for size in ((65536, 100_003) if ctx.shard == 0 else (4096, 999_983)):
-            chunks = [body[j:j + size] for j in range(0, len(body), size)]
+        for size in ((65536, 100_003, (37, 65536), (9000, 70_001)) if ctx.shard == 0 else (4096, 999_983)):
+            if isinstance(size, tuple):  # a short first read (or two), then full-size ones: a chunk of 64 KiB or more follows smaller ones
+                lead, size = size
+                chunks = [body[:lead], body[lead:2 * lead]] + [body[j:j + size] for j in range(2 * lead, len(body), size)]
+                size = f"{lead}+{lead}+{size}..."
+            else:
+                chunks = [body[j:j + size] for j in range(0, len(body), size)]
             for path, bf in (("sync", False), ("async", False), ("wsgi-form", False), ("asgi-form", False), ("wsgi-form", True), ("asgi-form", True)):
                 form["body_first"] = bf  # the accessor paths run once with the body read (and cached) first, once without
                 try:
